@@ -56,7 +56,12 @@ func batchMain(args []string) {
 	}
 	c.Watchdog(lim)
 	if pn := mon.Guard(func() { p.Run(c) }); pn != nil {
-		// a panic in the harness itself (every ojg call is guarded separately)
+		// every ojg call is meant to be guarded separately; a panic that still reaches this point is a
+		// violation when ojg code raised it (the rest of this batch is lost), a harness defect otherwise
+		if c.EscapedPanic(pn) {
+			c.Finish(true)
+			return
+		}
 		c.Inconclusive("harness panic: " + pn.Msg + "\n" + pn.Stack)
 		c.Finish(false)
 		os.Exit(4)
